@@ -19,6 +19,29 @@ pub fn run(r: &mut Report) {
         let s: String = v.into();
         r.case("predicate-ver-roundtrip", json!({"text": s}), "try_from(String::from(v)) == v", format!("{:?}", PredicateVer::try_from(s.clone())), PredicateVer::try_from(s).ok() == Some(v));
     }
+    // only the exact type strings name a version: every near-miss (extended, truncated, other case, blanks, fragment) is unknown, and a
+    // v0.1 statement declaring a near-miss type is rejected rather than silently re-labelled
+    {
+        let known_p: Vec<String> = [PredicateVer::LinkV0_2, PredicateVer::SLSAProvenanceV0_1, PredicateVer::SLSAProvenanceV0_2].into_iter().map(String::from).collect();
+        let known_s: Vec<String> = [StatementVer::Naive, StatementVer::V0_1].into_iter().map(String::from).collect();
+        let near = |u: &str| -> Vec<String> { let mut v = vec![format!("{}1", u), format!("{}.1", u), format!("{}/", u), format!("{}#frag", u), format!("{} ", u), format!(" {}", u),
+            u.to_uppercase(), u.to_lowercase(), format!("x{}", u), String::new()];
+            if !u.is_empty() { v.push(u[..u.len() - 1].to_string()); v.push(u.replacen("https", "http", 1)); }
+            v.retain(|x| x != u); v.sort(); v.dedup(); v };
+        let (mut n, mut bad): (usize, Vec<String>) = (0, vec![]);
+        for u in &known_p { for x in near(u) { if known_p.contains(&x) { continue; } n += 1;
+            if let Ok(Ok(v)) = no_panic(|| PredicateVer::try_from(x.clone())) { bad.push(format!("predicate type {:?} read as {:?}", x, v)); } } }
+        for u in &known_s { for x in near(u) { if known_s.contains(&x) { continue; } n += 1;
+            if let Ok(Ok(v)) = no_panic(|| StatementVer::try_from(x.clone())) { bad.push(format!("statement type {:?} read as {:?}", x, v)); } } }
+        r.case("type-string-near-misses", json!({"strings": n}), "none is accepted as a known version", format!("{:?}", bad.iter().take(6).collect::<Vec<_>>()), bad.is_empty());
+        let (mut n, mut bad): (usize, Vec<String>) = (0, vec![]);
+        for (u, doc) in [(known_p[0].clone(), link_pred()), (known_p[1].clone(), slsa01()), (known_p[2].clone(), slsa02())] {
+            for x in near(&u) { if known_p.contains(&x) { continue; } n += 1;
+                let st = json!({"_type": "https://in-toto.io/Statement/v0.1", "subject": {}, "predicateType": x, "predicate": doc});
+                if let Ok(Ok(w)) = no_panic(|| serde_json::from_str::<StatementWrapper>(&st.to_string())) {
+                    bad.push(format!("declared {:?} accepted, written back as {}", x, serde_json::to_string(&w).unwrap_or_default().chars().take(120).collect::<String>())); } } }
+        r.case("statement-with-near-miss-predicate-type", json!({"documents": n}), "all rejected", format!("{:?}", bad.iter().take(4).collect::<Vec<_>>()), bad.is_empty());
+    }
     // each predicate document is recognised as exactly its own version and round-trips
     let preds = [("https://in-toto.io/Link/v0.2", link_pred()), ("https://slsa.dev/provenance/v0.1", slsa01()), ("https://slsa.dev/provenance/v0.2", slsa02())];
     for (ty, doc) in preds.iter() {
